@@ -9,6 +9,7 @@ open YaegiVerif.Piecewise
 /-! ### the incremental parser on a text of one kind -/
 
 theorem token_decl (fx : Facts) (hg : Good fx) (it : Item) (h : it.isStmt = false) : fx.declTokens.contains it.token = true := by
+  have hc := hg.tokConst
   have hv := hg.tokVar
   have hf := hg.tokFunc
   have ht := hg.tokType
